@@ -232,16 +232,18 @@ end Plan
     (leaf maximal), `partition_perm` / `partition_closed` / `partition_groupvars_disjoint` (components are
     a partition and share no leaf variable: hypotheses `hpend`, `closed` of `Run.CompStep`), and the
     denotations of the dense-table operations `tabulate_eval`, `mulF_eval`, `reduceF_eval` (`ravel_spec`).
-    Still missing for the executable model, named precisely:
-      * `psp_refines_Reaches`: the abstraction function from the executable state (assoc-list of sorted
-        name lists ↦ dense tables, `Env` assoc-lists) to `Run.St` (finite name types, `Ctx`/value
-        functions), and the proof that every `FV.C09.component` call executed by `pspLoop` maps to a
-        `Run.CompStep` — it needs, besides the lemmas above, the list-as-set lemmas for
-        `sset`/`inter`/`diff`/`varOrdinals`/`addPending` and the identification of `newFac.fn` with the
-        denotation of `prodOut (sumOut (prodAll group))`;
-      * `unroll_eq_U`: the list enumeration `FV.C09.unroll` (`sumCopies`/`instProd` over assoc-lists)
-        equals `Run.U` of the denotations.
-    Both are covered at run time by the echo `psp = unroll` on every generated case.
+    Executable model, NON-PLATED case (third phase, `Props/C09/NoPlates.lean`): the full statement is
+    proved for `FV.C09.psp` / `FV.C09.unroll` themselves —
+      `Exec.sum_product_exact_noplates` : psp fs elim [] = ok rs → ∃ R, prodAll rs = some R ∧
+                                           unroll fs elim [] free = ok (table of R over free)
+    for every commutative semiring, with hypotheses only on the caller's `free` list.
+    Modified/dynamic bookkeeping: `Run.modified_step_isGStep` (a HEAD step of those variants is a generalized
+    step of the machine of the eliminated plates) and `Run.C09_3_witness` (dropping `& prod_vars` is not).
+    Still missing for the executable model, named precisely: the PLATED cases — `component` with
+    `leaf ≠ []` as the executable counterpart of `Run.elim_group` (`Asg`/`merge` realised by `points`/`++`,
+    `prodOut` over `leaf - new_plates`, `addPending` filing, several loop iterations) and `unroll`'s copies
+    with non-empty plate contexts (`sumCopies_pure` is already general).
+    The plated cases are covered at run time by the echo `psp = unroll` on every generated case.
     The earlier partial results stay: `step_preserves_unroll` (abstract index types) and
     `sum_product_exact_partial` below (nested plans equal their path-indexed flat unrolling). -/
 theorem sum_product_exact_partial {R : Type} [CommSemiring R] {Res E : Type} [Fintype Res] [DecidableEq Res]
